@@ -35,6 +35,51 @@ Theorem close_closes_api_refuted : api_fallback_bypasses_guard = false ->
 Proof. exact api_refuted. Qed.
 Print Assumptions close_closes_api_refuted.
 
+(* The fixed shapes (meta/fixes/C14_F7.diff / C14_F8.diff; the Params switches are read from the source): whoever holds
+   the send lock and the send guard, and whatever happens at every suspension point -- including cancellation while
+   waiting for the lock -- every leaf ends closing. *)
+Theorem close_closes_client_contended_fixed : client_forced_fallback = true ->
+  forall t e w ls, fresh t w -> (w_lock w = false -> w_guard w = false) ->
+  let '(r, w', ls') := client_aclose t e w ls in forall i, In i (leaves (tr_base t)) -> w_leaf w' i = true.
+Proof. intros H t e w ls. exact (client_closes_contended t e w ls H). Qed.
+Print Assumptions close_closes_client_contended_fixed.
+
+Theorem close_closes_api_contended_fixed : api_fallback_bypasses_guard = true ->
+  forall t e w ls, fresh t w -> (w_lock w = false -> w_guard w = false) ->
+  let '(r, w', ls') := api_aclose t e w ls in forall i, In i (leaves (tr_base t)) -> w_leaf w' i = true.
+Proof. intros H t e w ls. exact (api_closes_contended t e w ls H). Qed.
+Print Assumptions close_closes_api_contended_fixed.
+
+(* exactly one of the two situations holds for the tree that was translated: the defect with its witness, or the
+   theorem for the contended case *)
+Theorem client_lock_contention_status :
+  (client_forced_fallback = false /\
+   let '(r, w', _) := client_aclose (TPlain (BLeaf 0 1)) env0 (world0 true) [XCancel] in r = RCancel /\ w_leaf w' 0 = false)
+  \/
+  (client_forced_fallback = true /\
+   forall t e w ls, fresh t w -> (w_lock w = false -> w_guard w = false) ->
+   let '(r, w', ls') := client_aclose t e w ls in forall i, In i (leaves (tr_base t)) -> w_leaf w' i = true).
+Proof.
+  destruct (Bool.bool_dec client_forced_fallback true) as [E | E].
+  - right. split; [exact E | intros t e w ls; exact (client_closes_contended t e w ls E)].
+  - left. apply Bool.not_true_is_false in E. split; [exact E | exact (client_refuted E)].
+Qed.
+Print Assumptions client_lock_contention_status.
+
+Theorem api_lock_contention_status :
+  (api_fallback_bypasses_guard = false /\
+   let '(r, w', _) := api_aclose (TPlain (BLeaf 0 1)) env0 (world0 true) [XCancel] in r = RBusy /\ w_leaf w' 0 = false)
+  \/
+  (api_fallback_bypasses_guard = true /\
+   forall t e w ls, fresh t w -> (w_lock w = false -> w_guard w = false) ->
+   let '(r, w', ls') := api_aclose t e w ls in forall i, In i (leaves (tr_base t)) -> w_leaf w' i = true).
+Proof.
+  destruct (Bool.bool_dec api_fallback_bypasses_guard true) as [E | E].
+  - right. split; [exact E | intros t e w ls; exact (api_closes_contended t e w ls E)].
+  - left. apply Bool.not_true_is_false in E. split; [exact E | exact (api_refuted E)].
+Qed.
+Print Assumptions api_lock_contention_status.
+
 (* the client task's exit stack closes the transport whatever the handler did (lock and guard may be held), provided
    the handler left the TLS layer's closing flag alone *)
 Theorem client_task_exit_closes : forall t handler e w ls,
